@@ -245,3 +245,82 @@ def _bounded_slots(tier, repo):
 
 REG.bounded_check("bounded#slots_render_the_fill_addressed_to_them", P, _bounded_slots,
                   note="SlotNode.render / FillNode / _render_impl / component_post_render are not under contract: every component program of nesting depth <= 2 over a 5-component library is rendered for real (tag and dynamic component, both modes, 5 s budget each) and compared with a reference interpreter of the property.  Known findings F-C01a (hang) / F-C01b (fill ignored) delimit the django-mode defect; anything else is a violation")
+
+
+# ================================================================================================ FillNode.render (validation)
+# {% fill name data=... default=... %}: accepted exactly when it is used inside a {% component %} body, `name` is a str, the aliases
+# (when given) are identifier strings and differ from each other; an accepted fill is handed to the collector with exactly these
+# three values and renders nothing itself.
+import z3 as _z3  # noqa: E402
+from pyvc.types import TAny as _TAny  # noqa: E402
+
+_PV = _TAny.sort()
+FNODE = Obj("FillNode")
+_S, _B = _z3.StringSort(), _z3.BoolSort()
+
+
+def _extracting(ctx):
+    return ops.uf("context_is_extracting_fill", _z3.IntSort(), _B)(ctx)
+
+
+def _ident(s):
+    return ops.uf("str_isidentifier", _S, _B)(s)
+
+
+REG.stub("django_components.slots:_is_extracting_fill", lambda run, args, kwargs, node: Val(TBool, _extracting(args[0].t)))
+REG.stub("django_components.util.misc:is_identifier", lambda run, args, kwargs, node: Val(TBool, _ident(run.coerce(args[0], TStr).t)))
+
+
+def _fill_with_data(run, args, kwargs, node):
+    run.ghost["collected_name"], run.ghost["collected_default"], run.ghost["collected_data"] = kwargs["name"], kwargs["default_var"], kwargs["data_var"]
+    return Conc(("obj_kind", "fill_with_data"))
+
+
+def _extract_fill_stub(run, obj, args, kwargs, node):
+    run.ghost["handed_to_collector"] = Val(TBool, _z3.BoolVal(True))
+    return NONE
+
+
+REG.stub("django_components.slots:FillWithData", _fill_with_data)
+REG.stub(("new", "FillWithData"), _fill_with_data)
+REG.stub(("method", "FillNode", "_extract_fill"), _extract_fill_stub)
+
+
+def _strlike(v):
+    return _z3.Or(_PV.is_StrV(v), _PV.is_SafeV(v))
+
+
+def _txt(v):
+    return _z3.If(_PV.is_StrV(v), _PV.s(v), _PV.ss(v))
+
+
+def _fn_syntax_error(c):
+    ctx, name, data, default = c.old("context").t, c.old("name").t, c.old("data").t, c.old("default").t
+    return _z3.Or(_z3.Not(_extracting(ctx)), _z3.Not(_strlike(name)),
+                  _z3.And(_z3.Not(_PV.is_NoneV(data)), _z3.Not(_strlike(data))),
+                  _z3.And(_z3.Not(_PV.is_NoneV(default)), _z3.Not(_strlike(default))))
+
+
+def _fn_runtime_error(c):
+    data, default = c.old("data").t, c.old("default").t
+    # (which of the two error classes wins when several things are wrong follows the order of the checks and is not pinned)
+    return _z3.And(_z3.BoolVal(True), _z3.Or(
+        _z3.And(_strlike(data), _z3.Not(_ident(_txt(data)))),
+        _z3.And(_strlike(default), _z3.Not(_ident(_txt(default)))),
+        _z3.And(_strlike(data), _strlike(default), _z3.Length(_txt(data)) > 0, _txt(data) == _txt(default))))
+
+
+def _fn_post(c):
+    g = c.ghost
+    handed = g["handed_to_collector"].t if "handed_to_collector" in g else _z3.BoolVal(False)
+    same = lambda key, old: (c.run.coerce(g[key], _TAny).t == c.old(old).t) if key in g else _z3.BoolVal(False)
+    return _z3.And(c["result"].t == _z3.StringVal(""), handed, same("collected_name", "name"), same("collected_default", "default"), same("collected_data", "data"))
+
+
+REG.contract(
+    f"{MOD}:FillNode.render", prop=P, types={"context": Ref(CTX), "name": Any_, "data": Any_, "default": Any_}, result=Str, self_type=FNODE,
+    modifies=[],
+    raises={"TemplateSyntaxError": _fn_syntax_error, "RuntimeError": _fn_runtime_error},
+    ensures={"accepted_fill_is_collected_with_its_name_and_aliases_and_renders_nothing": _fn_post,
+             "accepted_only_when_well_formed": lambda c: _z3.And(_z3.Not(_fn_syntax_error(c)), _z3.Not(_fn_runtime_error(c)))},
+)
